@@ -45,15 +45,20 @@ Definition flag (k : string) (ls : lines) : option bool :=
 Definition omap {A B} (f : A -> option B) (o : option A) : option (option B) :=
   match o with None => Some None | Some a => b <- f a ;; Some (Some b) end.
 
-(* printing option lines *)
-Definition line (k : string) (args : list string) : seg := Seg (k :: args) false [].
-Definition line_if (k : string) (args : list string) : list seg :=
-  match args with [] => [] | _ => [line k args] end.
-Definition line_opt (k : string) (o : option string) : list seg :=
-  match o with Some a => [line k [a]] | None => [] end.
-Definition line_flag (k : string) (b : bool) : list seg := if b then [line k []] else [].
+(* printing option lines: a block is rendered from its fields, a field being an option name with
+   the argument lists of its occurrences (none when the option is absent) *)
+Definition field : Type := string * list (list string).
+Definition render (fs : list field) : lines :=
+  flat_map (fun f => map (pair (fst f)) (snd f)) fs.
+Definition occ_if (args : list string) : list (list string) := match args with [] => [] | _ => [args] end.
+Definition occ_opt (o : option string) : list (list string) := match o with Some a => [[a]] | None => [] end.
+Definition occ_flag (b : bool) : list (list string) := if b then [[]] else [].
+Definition occ_each (l : list string) : list (list string) := map (fun x => [x]) l.
+Definition mkline (l : string * list string) : seg := Seg (fst l :: snd l) false [].
 Definition block (name : string) (args : list string) (ls : list seg) : seg :=
   match ls with [] => Seg (name :: args) false [] | _ => Seg (name :: args) true ls end.
+Definition blockL (name : string) (args : list string) (fs : list field) : seg :=
+  block name args (map mkline (render fs)).
 
 (* caddyhttp.PrivateRangesCIDR() (Caddy, not /repo) *)
 Definition private_ranges : list string :=
@@ -132,24 +137,25 @@ Definition mleaf_name (m : mleaf) : string :=
 Definition opt_words (o : option string) : list string := match o with Some s => [s] | None => [] end.
 
 Definition star (o : option string) : string := match o with Some v => v | None => cstr l4dns_dnsSpecialAny end.
-Definition dns_rule_seg (r : dns_rule) : seg :=
-  line ((if dr_deny r then "deny" else "allow") ++ (if dr_regexp r then "_regexp" else ""))%string
-       (star (dr_name r) ::
+Definition dns_rule_line (r : dns_rule) : string * list string :=
+  (((if dr_deny r then "deny" else "allow") ++ (if dr_regexp r then "_regexp" else ""))%string,
+       star (dr_name r) ::
         match dr_type r with
         | None => []
         | Some t => star t :: match dr_class r with None => [] | Some c => [star c] end
         end).
 
-Definition key_line (k kfile : string) (o : option (bool * string)) : list seg :=
-  match o with None => [] | Some (true, v) => [line kfile [v]] | Some (false, v) => [line k [v]] end.
+(* a value given either inline (false) or as a file (true) *)
+Definition key_sel (file : bool) (o : option (bool * string)) : option string :=
+  match o with Some (f, v) => if Bool.eqb f file then Some v else None | None => None end.
 
 Definition mleaf_seg (m : mleaf) : seg :=
   match m with
   | MSsh | MXmpp | MPostgres | MProxyProtocol => Seg [mleaf_name m] false []
   | MSocks4 cmds nets ports =>
-      block "socks4" [] (line_if "commands" cmds ++ line_if "networks" (map range_word nets) ++
-                         line_if "ports" (map print_N ports))
-  | MSocks5 auth => block "socks5" [] (line_if "auth_methods" (map print_N auth))
+      blockL "socks4" [] [("commands", occ_if cmds); ("networks", occ_if (map range_word nets));
+                          ("ports", occ_if (map print_N ports))]
+  | MSocks5 auth => blockL "socks5" [] [("auth_methods", occ_if (map print_N auth))]
   | MRegexp pat count =>
       Seg ("regexp" :: pat :: match count with Some n => [print_N n] | None => [] end) false []
   | MClock f tz =>
@@ -160,33 +166,32 @@ Definition mleaf_seg (m : mleaf) : seg :=
                       end ++ opt_words tz) false []
   | MWireguard zero => Seg ("wireguard" :: match zero with Some n => [print_N n] | None => [] end) false []
   | MWinbox modes user =>
-      block "winbox" [] (line_if "modes" modes ++
-                         match user with
-                         | None => []
-                         | Some (true, v) => [line "username_regexp" [v]]
-                         | Some (false, v) => [line "username" [v]]
-                         end)
+      blockL "winbox" [] [("modes", occ_if modes); ("username", occ_opt (key_sel false user));
+                          ("username_regexp", occ_opt (key_sel true user))]
   | MRemoteIP rs => Seg ("remote_ip" :: map range_word rs) false []
   | MLocalIP rs => Seg ("local_ip" :: map range_word rs) false []
   | MDns rules dd pa =>
-      block "dns" [] (map dns_rule_seg rules ++ line_flag "default_deny" dd ++ line_flag "prefer_allow" pa)
+      block "dns" [] (map mkline (map dns_rule_line rules ++
+                                  render [("default_deny", occ_flag dd); ("prefer_allow", occ_flag pa)]))
   | MRdp f =>
-      block "rdp" [] match f with
-                     | RdpNone => []
-                     | RdpHash re v => [line (if re then "cookie_hash_regexp" else "cookie_hash") [v]]
-                     | RdpIPPort ips ports =>
-                         line_if "cookie_ip" (map range_word ips) ++ line_if "cookie_port" (map print_N ports)
-                     | RdpCustom re v => [line (if re then "custom_info_regexp" else "custom_info") [v]]
-                     end
+      blockL "rdp" [] match f with
+                      | RdpNone => []
+                      | RdpHash re v => [(if re then "cookie_hash_regexp" else "cookie_hash", [[v]])]
+                      | RdpIPPort ips ports =>
+                          [("cookie_ip", occ_if (map range_word ips)); ("cookie_port", occ_if (map print_N ports))]
+                      | RdpCustom re v => [(if re then "custom_info_regexp" else "custom_info", [[v]])]
+                      end
   | MOpenvpn c =>
-      block "openvpn" []
-        (line_if "modes" (ov_modes c) ++ line_flag "ignore_crypto" (ov_ignore_crypto c) ++
-         line_flag "ignore_timestamp" (ov_ignore_timestamp c) ++
-         key_line "group_key" "group_key_file" (ov_group_key c) ++
-         line_opt "auth_digest" (ov_auth_digest c) ++ line_opt "group_key_direction" (ov_direction c) ++
-         key_line "server_key" "server_key_file" (ov_server_key c) ++
-         map (fun k => line "client_key" [k]) (ov_client_keys c) ++
-         map (fun k => line "client_key_file" [k]) (ov_client_key_files c))
+      blockL "openvpn" []
+        [("modes", occ_if (ov_modes c)); ("ignore_crypto", occ_flag (ov_ignore_crypto c));
+         ("ignore_timestamp", occ_flag (ov_ignore_timestamp c));
+         ("group_key", occ_opt (key_sel false (ov_group_key c)));
+         ("group_key_file", occ_opt (key_sel true (ov_group_key c)));
+         ("auth_digest", occ_opt (ov_auth_digest c)); ("group_key_direction", occ_opt (ov_direction c));
+         ("server_key", occ_opt (key_sel false (ov_server_key c)));
+         ("server_key_file", occ_opt (key_sel true (ov_server_key c)));
+         ("client_key", occ_each (ov_client_keys c));
+         ("client_key_file", occ_each (ov_client_key_files c))]
   end.
 
 Definition dns_rule_json (r : dns_rule) : json :=
@@ -439,45 +444,45 @@ Definition odur_words (o : option dur) : option string := option_map print_dur o
 Definition oz_words (o : option Z) : option string := option_map print_Z o.
 Definition on_words (o : option N) : option string := option_map print_N o.
 
-Definition uptls_lines (t : uptls) : list seg :=
-  [line "tls" []] ++ line_if "tls_client_auth" (ut_client_auth t) ++ line_if "tls_curves" (ut_curves t) ++
-  line_if "tls_except_ports" (ut_except_ports t) ++ line_flag "tls_insecure_skip_verify" (ut_insecure t) ++
-  line_opt "tls_renegotiation" (ut_renegotiation t) ++ line_opt "tls_server_name" (ut_server_name t) ++
-  line_opt "tls_timeout" (odur_words (ut_timeout t)).
-Definition upstream_seg (u : upstream) : seg :=
-  block "upstream" (up_args u)
-    (line_if "dial" (up_dial u) ++ line_opt "max_connections" (oz_words (up_max_conns u)) ++
-     match up_tls u with Some t => uptls_lines t | None => [] end).
+Definition uptls_fields (t : uptls) : list field :=
+  [("tls", [[]]); ("tls_client_auth", occ_if (ut_client_auth t)); ("tls_curves", occ_if (ut_curves t));
+   ("tls_except_ports", occ_if (ut_except_ports t)); ("tls_insecure_skip_verify", occ_flag (ut_insecure t));
+   ("tls_renegotiation", occ_opt (ut_renegotiation t)); ("tls_server_name", occ_opt (ut_server_name t));
+   ("tls_timeout", occ_opt (odur_words (ut_timeout t)))].
+Definition upstream_fields (u : upstream) : list field :=
+  [("dial", occ_if (up_dial u)); ("max_connections", occ_opt (oz_words (up_max_conns u)))] ++
+  match up_tls u with Some t => uptls_fields t | None => [] end.
+Definition upstream_seg (u : upstream) : seg := blockL "upstream" (up_args u) (upstream_fields u).
 Definition policy_words (p : policy) : list string :=
   policy_name p :: match p with PRandomChoose (Some n) => [print_Z n] | _ => [] end.
+Definition proxy_fields (c : proxy_cfg) : list field :=
+  [("health_interval", occ_opt (odur_words (px_health_interval c)));
+   ("health_port", occ_opt (oz_words (px_health_port c)));
+   ("health_timeout", occ_opt (odur_words (px_health_timeout c)));
+   ("fail_duration", occ_opt (odur_words (px_fail_duration c)));
+   ("max_fails", occ_opt (oz_words (px_max_fails c)));
+   ("unhealthy_connection_count", occ_opt (oz_words (px_unhealthy_count c)));
+   ("lb_policy", match px_policy c with Some p => [policy_words p] | None => [] end);
+   ("lb_try_duration", occ_opt (odur_words (px_try_duration c)));
+   ("lb_try_interval", occ_opt (odur_words (px_try_interval c)));
+   ("proxy_protocol", occ_opt (px_proxy_protocol c))].
 
 Definition hleaf_seg (h : hleaf) : seg :=
   match h with
   | HEcho => Seg ["echo"] false []
   | HProxyProtocol allow timeout =>
-      block "proxy_protocol" [] (line_if "allow" (map range_word allow) ++ line_opt "timeout" (odur_words timeout))
+      blockL "proxy_protocol" [] [("allow", occ_if (map range_word allow)); ("timeout", occ_opt (odur_words timeout))]
   | HThrottle latency rbs rbps trbs trbps =>
-      block "throttle" []
-        (line_opt "latency" (odur_words latency) ++ line_opt "read_burst_size" (oz_words rbs) ++
-         line_opt "read_bytes_per_second" (on_words rbps) ++ line_opt "total_read_burst_size" (oz_words trbs) ++
-         line_opt "total_read_bytes_per_second" (on_words trbps))
+      blockL "throttle" []
+        [("latency", occ_opt (odur_words latency)); ("read_burst_size", occ_opt (oz_words rbs));
+         ("read_bytes_per_second", occ_opt (on_words rbps)); ("total_read_burst_size", occ_opt (oz_words trbs));
+         ("total_read_bytes_per_second", occ_opt (on_words trbps))]
   | HSocks5 bind_ip commands creds =>
-      block "socks5" []
-        (line_opt "bind_ip" bind_ip ++ line_if "commands" commands ++
-         line_if "credentials" (flat_map (fun c => [fst c; snd c]) creds))
+      blockL "socks5" []
+        [("bind_ip", occ_opt bind_ip); ("commands", occ_if commands);
+         ("credentials", occ_if (flat_map (fun c => [fst c; snd c]) creds))]
   | HProxy c =>
-      block "proxy" (px_args c)
-        (line_opt "health_interval" (odur_words (px_health_interval c)) ++
-         line_opt "health_port" (oz_words (px_health_port c)) ++
-         line_opt "health_timeout" (odur_words (px_health_timeout c)) ++
-         line_opt "fail_duration" (odur_words (px_fail_duration c)) ++
-         line_opt "max_fails" (oz_words (px_max_fails c)) ++
-         line_opt "unhealthy_connection_count" (oz_words (px_unhealthy_count c)) ++
-         match px_policy c with Some p => [line "lb_policy" (policy_words p)] | None => [] end ++
-         line_opt "lb_try_duration" (odur_words (px_try_duration c)) ++
-         line_opt "lb_try_interval" (odur_words (px_try_interval c)) ++
-         line_opt "proxy_protocol" (px_proxy_protocol c) ++
-         map upstream_seg (px_upstreams c))
+      block "proxy" (px_args c) (map mkline (render (proxy_fields c)) ++ map upstream_seg (px_upstreams c))
   end.
 
 Definition uptls_json (t : uptls) : json :=
